@@ -324,6 +324,66 @@ def job_update_noise_mid(num_pols, which):
     return recs
 
 
+def job_complex_background(num_pols):
+    """complex-valued sources on the antenna streams AND on the shared background: in every request (the first of an
+    observation and the later ones, which are assembled from the carried-over tail) real and imaginary part are aligned
+    as own k + background k + max_delay - delay_i"""
+    from props.C10 import custom_complex, CUR, CUI
+    recs = []
+    tag = f"C15:complex-background:{num_pols}"
+    delays = [0, 2]
+    t0, sr, fch1 = (Sym(z3.Real(n)) for n in ('t0', 'sr', 'fch1'))
+    pre = [sr.t > 0]
+    dt = 1 / sr.t
+    n1, n2 = 3, 4
+    with volt_patches(proxy=proxy()):
+        arr = A.MultiAntennaArray(num_antennas=2, sample_rate=sr, fch1=fch1, ascending=True, num_pols=num_pols, delays=delays, t_start=t0, seed=5)
+        for ant in arr.antennas:
+            for st in ant.streams:
+                st.add_signal(custom_complex)
+        for bg in arr.bg_streams:
+            bg.add_signal(lambda ts: custom_complex(ts) * 3)
+        o1 = arr.get_samples(n1)
+        o2 = arr.get_samples(n2)
+    mx = max(delays)
+    pairs = []
+    for out, base, n in ((o1, 0, n1), (o2, n1, n2)):
+        for i in range(2):
+            for pol in range(num_pols):
+                for j in range(n):
+                    to = t0.t + RV(base + j) * dt
+                    tb = t0.t + RV(base + j + mx - delays[i]) * dt
+                    pairs.append((cparts(out[i, pol, j]), (CUR(to) + 3 * CUR(tb), CUI(to) + 3 * CUI(tb))))
+    dis = diff_terms(pairs)
+    r, m = core.check(pre + [z3.Or(*dis)] if dis else [z3.BoolVal(False)], timeout_ms=120000)
+    recs.append(q(tag, r, terms=len(dis)))
+    if r == 'sat':
+        recs.append(cex('C15:complex-background', 'with complex-valued sources the array output is not own + delayed background in both parts', dict(fn='complex_background', num_pols=num_pols), name=tag))
+    return recs
+
+
+def replay_complex_background(p):
+    from setigen.voltage import antenna as an
+    import warnings
+    delays = [0, 2, 5]
+    sr, t0 = 1000.0, 1.25
+    with warnings.catch_warnings():
+        warnings.simplefilter('ignore')
+        arr = an.MultiAntennaArray(num_antennas=3, sample_rate=sr, fch1=0.0, ascending=True, num_pols=p['num_pols'], delays=delays, t_start=t0, seed=1)
+        for ant in arr.antennas:
+            for st in ant.streams:
+                st.add_signal(lambda ts: np.asarray(ts) * (3.0 + 1.0j))
+        for bg in arr.bg_streams:
+            bg.add_signal(lambda ts: np.asarray(ts) * (1000.0 + 50.0j))
+        outs = [arr.get_samples(7), arr.get_samples(6)]
+    mx = max(delays)
+    for out, base, n in ((outs[0], 0, 7), (outs[1], 7, 6)):
+        exp = np.array([[[(3.0 + 1.0j) * (t0 + (base + j) / sr) + (1000.0 + 50.0j) * (t0 + (base + j + mx - delays[i]) / sr) for j in range(n)] for _ in range(p['num_pols'])] for i in range(3)])
+        if out.shape != exp.shape or not np.allclose(out, exp, rtol=1e-9, atol=1e-9):
+            return True, f"request starting at sample {base}: antenna 0 gets {out[0, 0, 0]!r}, own + delayed background is {exp[0, 0, 0]!r}"
+    return False, 'complex sources stay aligned in both parts'
+
+
 def replay_update_noise_mid(p):
     from setigen.voltage import antenna as an
     delays = [0, 2, 5]
@@ -387,7 +447,7 @@ def _replay_resync(p, t_req):
     return bad, f"{p['op']} (start flag {p['start_flag']}) from diverged clocks: next request gives {out[:, 0, :2].tolist()}, aligned from t={want} it would be {exp[:, 0, :2].tolist()}"
 
 
-REPLAYS = {'array': replay_array, 'resync': replay_resync, 'update_noise_mid': replay_update_noise_mid}
+REPLAYS = {'array': replay_array, 'resync': replay_resync, 'update_noise_mid': replay_update_noise_mid, 'complex_background': replay_complex_background}
 
 
 def main():
@@ -404,6 +464,7 @@ def main():
                 jobs.append(('job_resync', (npol_, op_, flag_)))
         for which_ in ('background', 'antenna'):
             jobs.append(('job_update_noise_mid', (npol_, which_)))
+        jobs.append(('job_complex_background', (npol_,)))
     if ck.thorough:
         space = [(1, 1, 2), (2, 1, 2), (2, 2, 2), (3, 1, 2), (3, 2, 1), (2, 1, 3)]
         N = 8
